@@ -286,6 +286,32 @@ class B:
         self.body["var"] += [f"{pat} = {vals2!r}", f"{led}.flash_pattern({pat}, 1)"]
         return "flash_pattern"
 
+    def s_pattern_from_history(self):
+        """a pattern (or glyph row) computed from a scalar with a history of plain and augmented re-assignments: whatever is baked must be the
+        value Python computes at that point (a transpiler that cannot know it has to refuse)."""
+        led, lv, pat = self.nm("led"), self.nm("lv"), self.nm("pat")
+        self.both("body", [f"{led} = Led(6)"])
+        val = self.draw(st.integers(1, 9))
+        hist = [f"{lv} = {val}"]
+        for _ in range(self.draw(st.integers(1, 3))):
+            a = self.draw(st.integers(2, 5))
+            op = self.draw(st.sampled_from(["+=", "-=", "*=", "//=", "%=", "= +", "= *", "= //"]))
+            if op == "-=" and val < a:
+                op = "+="
+            if op in ("+=", "-=", "*=", "//=", "%="):
+                hist.append(f"{lv} {op} {a}")
+                val = {"+=": val + a, "-=": val - a, "*=": val * a, "//=": val // a, "%=": val % a}[op]
+            else:
+                sym = op.split()[1]
+                hist.append(f"{lv} = {lv} {sym} {a}")
+                val = {"+": val + a, "*": val * a, "//": val // a}[sym]
+        c = self.draw(st.integers(1, 3))
+        vals = [min(val * c * 10, 255), 0, min(val, 255)]
+        self.body["lit"].append(f"{led}.flash_pattern({vals!r}, 1)")
+        self.body["var"] += hist + [f"{pat} = [min({lv} * {c * 10}, 255), 0, min({lv}, 255)]", f"{led}.flash_pattern({pat}, 1)"]
+        self.both("body", ["mon.write(1)"])
+        return "pattern_from_history"
+
     def s_glyph(self):
         if getattr(self, "lcd", None) is None:
             self.lcd = "lcd"
@@ -369,7 +395,7 @@ class B:
         self.stale_possible = True
         return "param_shadow"
 
-KINDS = ["param_shadow", "sleep", "led_args", "range", "analog_write", "len_safe", "flash_pattern", "glyph", "sensor_model", "runtime_operand"]
+KINDS = ["pattern_from_history", "param_shadow", "sleep", "led_args", "range", "analog_write", "len_safe", "flash_pattern", "glyph", "sensor_model", "runtime_operand"]
 
 
 @st.composite
